@@ -6,11 +6,19 @@
    no line holds another of str.splitlines' break characters. *)
 From Coq Require Import ZArith List Bool Lia.
 From Mistletoe Require Import Base.Sx Base.PyStr Base.PyText Gen.GenTables Gen.GenConfig Gen.GenEscapes Model.Fillers Model.Tree Model.CoreTokens Model.Block Model.Build
-     Model.DocLines Model.HtmlRenderer Model.Parser Proofs.PlainProse Proofs.Prose Proofs.ProseLines Proofs.ListLaw Proofs.FenceLaw Spec.Fragment Proofs.InertProse Proofs.FragmentP Proofs.FragmentDoc Proofs.EmphSimple Proofs.EmphSentence Proofs.RefSentence Proofs.LinkSentence Proofs.MixPhrases Proofs.CodeSpan Proofs.HardBreaks Proofs.BreakBlocks.
+     Model.DocLines Model.HtmlRenderer Model.Parser Proofs.PlainProse Proofs.Prose Proofs.ProseLines Proofs.ListLaw Proofs.FenceLaw Spec.Fragment Proofs.InertProse Proofs.FragmentP Proofs.FragmentDoc Proofs.EmphSimple Proofs.EmphSentence Proofs.RefSentence Proofs.LinkSentence Proofs.MixPhrases Proofs.CodeSpan Proofs.HardBreaks Proofs.BreakBlocks Proofs.StrikeSentence Proofs.EscSentence Proofs.ImageSentence Proofs.LeafSpans Proofs.OneInline.
 Import ListNotations.
 Local Open Scope Z_scope.
 
-Definition is_fpara (t : ftree) : bool := match t with FPara _ _ _ | FEm _ _ _ _ _ _ | FLink _ _ _ _ _ | FSent _ _ _ | FTick _ _ _ _ | FBrk _ _ _ _ => true | _ => false end.
+Definition is_fpara (t : ftree) : bool := match t with FPara _ _ _ | FEm _ _ _ _ _ _ | FLink _ _ _ _ _ | FSent _ _ _ | FTick _ _ _ _ | FBrk _ _ _ _ | FOne _ _ _ _ => true | _ => false end.
+
+(* the HTML of the inline element of a leaf FOne *)
+Definition inl_html (o : hopts) (x : inl) : str :=
+  match x with
+  | IStrike w => $"<del>" ++ escape_html_text o w ++ $"</del>"
+  | IEsc c => escape_html_text o [c]
+  | IImg w d => $"<img src=" ++ [34] ++ fill o html_image_src d ++ [34] ++ $" alt=" ++ [34] ++ fill0 html_plain_leaf w ++ [34] ++ $" />"
+  end.
 
 (* the lines of a paragraph, escaped; a line followed by two spaces or more ends in <br /> *)
 Fixpoint brk_html (o : hopts) (ls : list (str * nat)) : str :=
@@ -78,6 +86,9 @@ Fixpoint html_f (o : hopts) (tight : bool) (t : ftree) : str :=
   | FBrk c body k more =>
     let inner := brk_html o ((c :: body, k) :: more) in
     if tight then inner else $"<p>" ++ inner ++ $"</p>"
+  | FOne c0 pre x post =>
+    let inner := escape_html_text o (c0 :: pre) ++ inl_html o x ++ escape_html_text o post in
+    if tight then inner else $"<p>" ++ inner ++ $"</p>"
   end
 with html_lis (o : hopts) (tight : bool) (t : ftree) : str :=      (* the items of the rest of a list *)
   match t with
@@ -124,7 +135,7 @@ Proof. induction ts as [|t r IH]; [reflexivity|]. cbn [tok_seq map blank_tok app
 
 Lemma tok_of_chain_is_list md : forall t, is_item t = true -> wf_b t = true -> exists s lo items, tok_of md t = List s lo items.
 Proof.
-  induction t as [| | | mk pad ts | mk pad ts bl next IH | | | | | | | ]; intros Hi Hw; try discriminate.
+  induction t as [| | | mk pad ts | mk pad ts bl next IH | | | | | | | | ]; intros Hi Hw; try discriminate.
   - cbn [tok_of]. eexists. eexists. eexists. reflexivity.
   - cbn [wf_b] in Hw. repeat rewrite andb_true_iff in Hw. destruct Hw as [[[_ Hin] _] Hwn].
     destruct (IH Hin Hwn) as (s & lo & items & E). cbn [tok_of]. rewrite E. eexists. eexists. eexists. reflexivity.
@@ -132,7 +143,7 @@ Qed.
 
 Lemma is_para_tok t : wf_b t = true -> match tok_of false t with Paragraph _ => true | _ => false end = is_fpara t.
 Proof.
-  intros Hw. destruct t as [ | | | |mk pad ts bl next| | | | | | | ]; try reflexivity.
+  intros Hw. destruct t as [ | | | |mk pad ts bl next| | | | | | | | ]; try reflexivity.
   destruct (tok_of_chain_is_list false (FMore mk pad ts bl next) eq_refl Hw) as (s & lo & items & ->). reflexivity.
 Qed.
 
@@ -310,6 +321,29 @@ Proof.
     rewrite !serialize_app. rewrite render_brk_toks by discriminate. cbn. rewrite ?app_nil_r. reflexivity.
 Qed.
 
+Lemma html_one o sup c0 pre x post :
+  serialize (render o sup false (tok_of false (FOne c0 pre x post))) = html_f o sup (FOne c0 pre x post).
+Proof.
+  cbn [tok_of html_f]. cbv zeta.
+  assert (E : serialize (flat_map (render o sup false) (RawText (c0 :: pre) :: inl_tok x :: raw_if post)) =
+              escape_html_text o (c0 :: pre) ++ inl_html o x ++ escape_html_text o post).
+  { change (RawText (c0 :: pre) :: inl_tok x :: raw_if post) with ([RawText (c0 :: pre)] ++ [inl_tok x] ++ raw_if post).
+    rewrite !flat_map_app. unfold serialize. rewrite !flat_map_app.
+    fold (serialize (flat_map (render o sup false) (raw_if post))). rewrite ser_raw_if.
+    change (fill o GenEscapes.html_raw_text (c0 :: pre)) with (escape_html_text o (c0 :: pre)).
+    set (P := escape_html_text o (c0 :: pre)). set (Q := escape_html_text o post).
+    destruct x as [w|c|w d]; cbn [inl_tok inl_html flat_map render]; unfold image_of, wrap; cbn [flat_map render ser_item app l_target l_title title_attr to_plain ser_attrs fst snd].
+    - change (fill o GenEscapes.html_raw_text w) with (escape_html_text o w). set (W := escape_html_text o w). cbn [app]. rewrite ?app_nil_r, <- ?app_assoc. reflexivity.
+    - change (fill o GenEscapes.html_raw_text [c]) with (escape_html_text o [c]). set (W := escape_html_text o [c]). rewrite ?app_nil_r, <- ?app_assoc. reflexivity.
+    - set (A := fill0 html_plain_leaf w). set (D := fill o html_image_src d). cbn [app]. rewrite ?app_nil_r. repeat (rewrite <- ?app_assoc; cbn [app]). reflexivity. }
+  destruct sup.
+  - cbn [render]. cbv iota. exact E.
+  - cbn [render]. cbv iota. unfold wrap.
+    set (X := flat_map (render o false false) (RawText (c0 :: pre) :: inl_tok x :: raw_if post)) in *.
+    change (IOpen $"p" [] :: X ++ [IClose $"p"]) with ([IOpen $"p" []] ++ X ++ [IClose $"p"]).
+    rewrite !serialize_app, E. cbn. rewrite ?app_nil_r, <- ?app_assoc. reflexivity.
+Qed.
+
 Lemma ser_li o sup a ch : ch <> [] ->
   serialize (render o sup false (ListItem a ch)) =
   $"<li>" ++ (if sup && first_is_paragraph ch then [] else [10]) ++ serialize (join_items [nl] (map (render o sup false) ch)) ++
@@ -331,7 +365,7 @@ Proof.
             serialize (join_items [nl] (map (render o sup false) (tok_seq false ts))) = join [10] (map (html_f o sup) ts)).
   { intros ts sup Hne Hall Hd. rewrite tok_seq_plain, map_map. rewrite (serialize_join (fun x => render o sup false (tok_of false x))).
     f_equal. apply map_ext_in. intros x Hx. rewrite forallb_forall in Hall. rewrite Forall_forall in Hd. apply IH; [apply Hd; exact Hx|apply Hall; exact Hx]. }
-  induction t as [| | | mk pad ts | mk pad ts bl next IHn | | | | | | | ]; intros Hi Hw Hd; try discriminate.
+  induction t as [| | | mk pad ts | mk pad ts bl next IHn | | | | | | | | ]; intros Hi Hw Hd; try discriminate.
   - cbn [wf_b] in Hw. repeat rewrite andb_true_iff in Hw. destruct Hw as [[[[[[Hmk Hp1] Hp4] Hs] Hall] Hg] Hth].
     apply marker_ok_reflect in Hmk.
     assert (Hne : ts <> []) by (destruct ts; [discriminate|discriminate]).
@@ -364,11 +398,11 @@ Lemma html_fragment o : forall f t sup, (depth t <= f)%nat -> wf_b t = true ->
   serialize (render o sup false (tok_of false t)) = html_f o sup t.
 Proof.
   induction f as [|f IH]; intros t sup Hd Hw.
-  - destruct t as [c body more|ch n content|ts|mk pad ts|mk pad ts bl next|lv hc hb|rc rn|e0 epre ech edbl ew epost|l0 lpre lw ldest lpost|s0 st0' sgs|k0 kpre kcode kpost|b0 bbody bk bmore]; [| |cbn [depth] in Hd; lia|cbn [depth] in Hd; lia|cbn [depth] in Hd; lia| |reflexivity|apply html_em|apply html_link|apply html_sent|apply html_tick|apply html_brk].
+  - destruct t as [c body more|ch n content|ts|mk pad ts|mk pad ts bl next|lv hc hb|rc rn|e0 epre ech edbl ew epost|l0 lpre lw ldest lpost|s0 st0' sgs|k0 kpre kcode kpost|b0 bbody bk bmore|o0 opre ox opost]; [| |cbn [depth] in Hd; lia|cbn [depth] in Hd; lia|cbn [depth] in Hd; lia| |reflexivity|apply html_em|apply html_link|apply html_sent|apply html_tick|apply html_brk|apply html_one].
     + apply html_para.
     + cbn [tok_of render html_f f_language f_content]. cbn. rewrite ?app_nil_r. reflexivity.
     + apply html_head. cbn [wf_b] in Hw. repeat rewrite andb_true_iff in Hw. destruct Hw as [[[[[[H1 H2] _] _] _] _] _]. apply Nat.leb_le in H1, H2. lia.
-  - destruct t as [c body more|ch n content|ts|mk pad ts|mk pad ts bl next|lv hc hb|rc rn|e0 epre ech edbl ew epost|l0 lpre lw ldest lpost|s0 st0' sgs|k0 kpre kcode kpost|b0 bbody bk bmore]; [| | | | |apply html_head; cbn [wf_b] in Hw; repeat rewrite andb_true_iff in Hw; destruct Hw as [[[[[[H1 H2] _] _] _] _] _]; apply Nat.leb_le in H1, H2; lia|reflexivity|apply html_em|apply html_link|apply html_sent|apply html_tick|apply html_brk].
+  - destruct t as [c body more|ch n content|ts|mk pad ts|mk pad ts bl next|lv hc hb|rc rn|e0 epre ech edbl ew epost|l0 lpre lw ldest lpost|s0 st0' sgs|k0 kpre kcode kpost|b0 bbody bk bmore|o0 opre ox opost]; [| | | | |apply html_head; cbn [wf_b] in Hw; repeat rewrite andb_true_iff in Hw; destruct Hw as [[[[[[H1 H2] _] _] _] _] _]; apply Nat.leb_le in H1, H2; lia|reflexivity|apply html_em|apply html_link|apply html_sent|apply html_tick|apply html_brk|apply html_one].
     + apply html_para.
     + cbn [tok_of render html_f f_language f_content]. cbn. rewrite ?app_nil_r. reflexivity.
     + cbn [wf_b] in Hw. repeat rewrite andb_true_iff in Hw. destruct Hw as [[Hs Hall] Hg].
@@ -411,7 +445,7 @@ Qed.
 
 Lemma html_f_starts o t : exists r, html_f o false t = 60 :: r.
 Proof.
-  destruct t as [c body more|ch n content|ts|mk pad ts|mk pad ts bl next|lv hc hb|rc rn|e0 epre ech edbl ew epost|l0 lpre lw ldest lpost|s0 st0' sgs|k0 kpre kcode kpost|b0 bbody bk bmore]; cbn [html_f]; try (eexists; reflexivity);
+  destruct t as [c body more|ch n content|ts|mk pad ts|mk pad ts bl next|lv hc hb|rc rn|e0 epre ech edbl ew epost|l0 lpre lw ldest lpost|s0 st0' sgs|k0 kpre kcode kpost|b0 bbody bk bmore|o0 opre ox opost]; cbn [html_f]; try (eexists; reflexivity);
   (destruct mk as [b|ds d]; cbn [list_open]; [eexists; reflexivity|]; destruct (int_of_digits ds =? 1); eexists; reflexivity).
 Qed.
 
